@@ -204,6 +204,32 @@ def shape_probe(fn, xs, shapes=SHAPES, accept_0d_array=False):
     return out
 
 
+
+# ---------------------------------------------------------------- the same real numbers in another container
+INT_DTYPES = ("int8", "uint8", "int16", "uint16", "int32", "uint32", "int64", "uint64")
+
+
+def number_containers(vals, rng, allow_float32=True, k=2):
+    """Present the finite reals `vals` (a list of Python floats) in up to `k` other containers that hold *exactly* the same
+    numbers: a list of Python ints, an integer ndarray of every width that can hold them, a float32 ndarray (only if every
+    value is exactly representable).  A property that quantifies over "every real n" holds for the number, not for the
+    float64 ndarray the number happens to arrive in; numpy picks the precision of some ufuncs (scipy.special in
+    particular) from the input dtype, so this is an input axis of its own.  float16 is left out on purpose: half
+    precision is an explicit request for a low-precision computation.  Returns [(label, object)]."""
+    import numpy as np
+    out = []
+    if all(float(v).is_integer() and abs(v) < 2 ** 62 for v in vals):
+        iv = [int(v) for v in vals]
+        out.append(("pyint_list", iv))
+        for dt in INT_DTYPES:
+            info = np.iinfo(dt)
+            if info.min <= min(iv) and max(iv) <= info.max:
+                out.append((dt, np.array(iv, dtype=dt)))
+    if allow_float32 and all(float(np.float32(v)) == v for v in vals):
+        out.append(("float32", np.array(vals, dtype=np.float32)))
+    rng.shuffle(out)
+    return out[:k]
+
 def jsonable(x):
     import numpy as np
     if isinstance(x, Fr):
